@@ -648,7 +648,7 @@ def _class_names_case(case):
     try:
         m = xtuml.MetaModel(xtuml.IntegerGenerator())
         mc = m.define_class(name, [('Id', 'unique_id'), ('Nm', 'string')])
-        other = m.define_class(name + 'x', [('Id', 'unique_id')])
+        m.define_class(name + 'x', [('Id', 'unique_id')])
         made = []
         for sp in case['spellings']:
             inst = m.new(sp, **{case.get('kw', 'Nm'): sp})
